@@ -21,12 +21,17 @@ def run_case(case):
     url = imgrun.put_on_fs(b, case["fs"], f"c06_{case['seed']}")
     try:
         ref = None
-        for rpc in case["rpcs"]:
+        if case["fs"] == "vtrace":
+            tracefs.JITTER[0] = 0.0004  # lets threads an implementation may use internally interleave on a shared handle
+        for rpc in case["rpcs"] + [r for r in case["rpcs"][1:4]]:
             opts = {"use_cache": False}
             if rpc is not None:
                 opts["records_per_chunk"] = rpc
             tracefs.take_log()
             try:
+                if rpc in case["rpcs"][1:4] and ref is not None and not case.get("_second"):
+                    # the SAME option dict object handed to two consecutive opens (a session that keeps one options dict)
+                    ceos_alos2.open_alos2(url, backend_options=opts)
                 tree = ceos_alos2.open_alos2(url, backend_options=opts)
                 fp = project.fingerprint(tree)
             except BaseException as e:  # noqa: B902
@@ -50,6 +55,7 @@ def run_case(case):
                 if d:
                     res["bad"].append((rpc, f"tree differs from rpc={ref[0]}: {d[:3]}"))
     finally:
+        tracefs.JITTER[0] = 0.0
         imgrun.drop_from_fs(url, case["fs"])
     res["images"] = [{k: im[k] for k in ("name", "group", "n", "p", "prefix", "bps")} for im in b.images]
     return res
